@@ -2,6 +2,7 @@ package coins
 
 import (
 	"fmt"
+	"os"
 	"sort"
 	"strings"
 	"testing"
@@ -423,6 +424,9 @@ func c08Exec(ctx *vk.Ctx, c c08Case) error {
 			ctx.Class(fmt.Sprintf("%s ok=%v", tx.Kind, ok))
 		}
 		ctx.Note(fmt.Sprintf("tx%d", i), fmt.Sprintf("%s ok=%v outcome=%s", label, ok, outcome))
+		if os.Getenv("C08_DEBUG") != "" && strings.HasPrefix(outcome, "other") {
+			fmt.Printf("DEBUG %s %s: %v\n%s\n", label, outcome, r.Error, trimLog(r.Log))
+		}
 		if r.GasWanted == 0 {
 			return fmt.Errorf("harness: tx %d rejected by the ante handler: %v", i, r.Error)
 		}
